@@ -78,14 +78,23 @@ def make_factory(lvl):
     return factory
 
 
-def make_handler(lvl):
+def make_handler(lvl, takes_ra=False):
+    """error handler of level lvl; when that application defines resource `ra`, its render_error asks for it (the value
+    it receives must be the SERVING application's)"""
     from clastic.errors import ErrorHandler
 
-    class H(ErrorHandler):
-        def render_error(self, request, _error):
-            _error.adapt('text/plain')
-            _error.data = ('[[' + json.dumps({'eh': lvl, 'code': _error.code}) + ']]').encode('utf8')
-            return _error
+    if takes_ra:
+        class H(ErrorHandler):
+            def render_error(self, request, _error, ra):
+                _error.adapt('text/plain')
+                _error.data = ('[[' + json.dumps({'eh': lvl, 'code': _error.code, 'eh_ra': getattr(ra, 'lvl', -1)}) + ']]').encode('utf8')
+                return _error
+    else:
+        class H(ErrorHandler):
+            def render_error(self, request, _error):
+                _error.adapt('text/plain')
+                _error.data = ('[[' + json.dumps({'eh': lvl, 'code': _error.code}) + ']]').encode('utf8')
+                return _error
     return H()
 
 
@@ -115,7 +124,7 @@ def build_nested(rec, W):
             entries.insert(at, SubApplication(ptxt, app, rebind_render=a['rebind'], inherit_slashes=a['inherit']))
         app_mws = [make_mw(cache, W, t, '%d.0.%d' % (k, i)) for i, t in enumerate(a['mws'], 1)]
         app = Application(entries, resources=dict((nm, ResObj(nm, k)) for nm in a['res']), middlewares=app_mws,
-                          render_factory=make_factory(k) if a['fact'] else None, error_handler=make_handler(k),
+                          render_factory=make_factory(k) if a['fact'] else None, error_handler=make_handler(k, 'ra' in a['res']),
                           slash_mode=a['slash'])
     return app
 
@@ -134,7 +143,9 @@ def build_flat(rec, W):
     """the flat application, built from TLC's flattened table"""
     from clastic import Application, Route
     cache = {}
-    app = Application([], error_handler=make_handler(1))
+    outer_has_ra = 'ra' in rec['attrs'][0]['res']
+    app = Application([], error_handler=make_handler(1, outer_has_ra),
+                      resources={'ra': ResObj('ra', 1)} if outer_has_ra else None)
     for r in rec['table']:
         rd = r['render']
         if r['rk'] == 'none':
@@ -260,7 +271,8 @@ def check_tree(run, rec):
             for name, app, W in (('nested', nested, W1), ('flat', flat, W2)):
                 obs = probe(app, W, r['probe'], r['branch'], fail=True)
                 run.evaluations += 1
-                if obs['status'] != 500 or obs['info'].get('eh') != 1:
+                want_ra = 1 if 'ra' in rec['attrs'][0]['res'] else None
+                if obs['status'] != 500 or obs['info'].get('eh') != 1 or obs['info'].get('eh_ra') != want_ra:
                     ok = False
                     run.violation('%s:error-handling-not-outer' % name,
                                   '%s application: failing endpoint answered %r' % (name, obs),
